@@ -11,6 +11,9 @@ import threading
 import traceback
 import types
 import warnings
+
+if sys.version_info < (3, 11):
+    from exceptiongroup import ExceptionGroup
 from typing import (
     Any,
     AsyncContextManager,
@@ -482,6 +485,7 @@ def glue_contextlib() -> None:
     def elaborate_exit_stack(stack: Any, context: Context) -> None:
         stackname = context.varname or "_"
         children = []
+        errors: List[Exception] = []
         # List of (is_sync, callback) tuples, from outermost to innermost, where
         # each callback takes parameters following the signature of a __exit__ method
         callbacks: List[Tuple[bool, Callable[..., Any]]] = list(stack._exit_callbacks)
@@ -490,7 +494,9 @@ def glue_contextlib() -> None:
             tag = ""
             manager: object = None
             method: str
-            arg: Optional[str] = None
+            # (how to describe what was registered: computed only once the
+            # child exists, since it calls reprs that may fail)
+            describe_arg: Optional[Callable[[], str]] = None
             # Is this the exit method of a context manager that was entered
             # through, or pushed onto, the stack?
             exit_names = ("__exit__", "__aexit__")
@@ -525,12 +531,12 @@ def glue_contextlib() -> None:
                 manager = callback.__self__
                 tag = "" if is_sync else "await "
                 method = "enter_context" if is_sync else "enter_async_context"
-                arg = repr(manager)
+                describe_arg = functools.partial(repr, manager)
             elif isinstance(callback, types.MethodType):
                 # stack.push(something.exit_ish_method)
                 manager = callback.__self__
                 method = "push" if is_sync else "push_async_exit"
-                arg = format_funcname(callback)
+                describe_arg = functools.partial(format_funcname, callback)
             elif (
                 hasattr(callback, "__wrapped__")
                 and getattr(callback, "__name__", None) == "_exit_wrapper"
@@ -542,20 +548,25 @@ def glue_contextlib() -> None:
                 args_idx = callback.__code__.co_freevars.index("args")
                 kwds_idx = callback.__code__.co_freevars.index("kwds")
                 assert callback.__closure__ is not None
-                arg = ", ".join(
-                    [
-                        format_funcname(callback.__wrapped__),  # type: ignore
-                        *format_funcargs(
-                            callback.__closure__[args_idx].cell_contents,
-                            callback.__closure__[kwds_idx].cell_contents,
-                        ),
-                    ],
-                )
+
+                def describe_arg(
+                    callback: Any = callback, args_idx: int = args_idx, kwds_idx: int = kwds_idx
+                ) -> str:
+                    return ", ".join(
+                        [
+                            format_funcname(callback.__wrapped__),
+                            *format_funcargs(
+                                callback.__closure__[args_idx].cell_contents,
+                                callback.__closure__[kwds_idx].cell_contents,
+                            ),
+                        ],
+                    )
+
                 method = "callback" if is_sync else "push_async_callback"
             else:
                 # stack.push(exit_ish_function)
                 method = "push" if is_sync else "push_async_exit"
-                arg = format_funcname(callback)
+                describe_arg = functools.partial(format_funcname, callback)
 
             child_context = Context(
                 obj=manager if manager is not None else callback,
@@ -568,10 +579,28 @@ def glue_contextlib() -> None:
             # one of the hooks invoked by fill_context() raises
             children.append(child_context)
             context.children = children
-            _extract.fill_context(child_context)
-            child_context.description = f"{tag}{stackname}.{method}({child_context.description or arg or '...'})"
+            # A failure to describe one registration is no reason to drop the
+            # ones registered after it
+            try:
+                try:
+                    _extract.fill_context(child_context)
+                finally:
+                    arg = child_context.description
+                    if arg is None and describe_arg is not None:
+                        arg = describe_arg()
+                    child_context.description = (
+                        f"{tag}{stackname}.{method}({arg or '...'})"
+                    )
+            except Exception as ex:
+                errors.append(ex)
 
         context.children = children
+        if len(errors) == 1:
+            raise errors[0]
+        if errors:
+            raise ExceptionGroup(
+                "multiple errors encountered while extracting stack", errors
+            )
 
 
 @builtin_glue("threading")
